@@ -108,22 +108,37 @@ def eval_partition(proj: Project, which: str, sccs: List[List[int]], robust: Set
     return _PW[id(proj)].run(which, sccs, robust)
 
 
+_CW = {}
+
+
 def eval_consistent(proj: Project, partition: List[Set[str]], ranking: List[Set[str]], cons_nb: int):
-    cls = proj.cls(MOD, "OrderedPartition")
-    f = proj.method(cls, "consistent_with")
-    ggi = proj.method(cls, "get_group_index")
-    mapping = {}
-    for i, g in enumerate(partition):
-        for e in g:
-            mapping[e] = i
-    me = Obj("SELF", {"_partition": partition, "partition": partition, "_mapping_elements_bucket_id": mapping,
-                      "nb_elements": len(mapping)})
-    me.methods["get_group_index"] = lambda ev, call, a, kw: ev.call_user(ggi.node, [me] + a, kw)
-    cons = Obj("CONS", {"consensus_rankings": [ranking, [{"zzz"}]], "nb_elements": cons_nb})
-    evl = Evaluator({}, {})
-    evl.while_bound = 300
+    """The real OrderedPartition.consistent_with on a real OrderedPartition and a real Consensus made of `ranking` plus
+    a decoy second ranking over the same elements (only the first one must be read). `cons_nb` > number of elements of `ranking` is realised by
+    binding the Consensus to a dataset with that many elements."""
+    from .datamodel import World
+    if _CW.get("proj") is not proj:
+        _CW.clear()
+        w_ = World(proj)
+        w_.rt.max_steps = 40000
+        w_.rt.funcs["print"] = lambda ev, call: None
+        _CW.update(proj=proj, w=w_)
+    w = _CW["w"]
+    OP = proj.cls(MOD, "OrderedPartition")
+    CONS = proj.cls("corankco.consensus", "Consensus")
+    f = proj.method(OP, "consistent_with")
     try:
-        return evl.call_user(f.node, [me, cons])
+        part = w.rt.new(OP, [[{w.element(x) for x in g} for g in partition]], {})
+        r0 = w.ranking([set(b) for b in ranking])
+        # a second consensus ranking over the same elements, one per bucket, in the opposite order: reading it instead of
+        # (or besides) the first one changes the answer on most pairs
+        decoy = w.ranking([{x} for b in reversed(ranking) for x in sorted(b, reverse=True)])
+        ds = None
+        n_in = sum(len(b) for b in ranking)
+        if cons_nb != n_in:
+            extra = [f"x{i}" for i in range(cons_nb - n_in)] if cons_nb > n_in else []
+            ds = w.dataset([[set(b) for b in ranking] + ([set(extra)] if extra else [])]) if (ranking or extra) else None
+        cons = w.rt.new(CONS, [[r0, decoy]] + ([ds] if ds is not None else []), {})
+        return w.rt.call_method(part, "consistent_with", cons)
     except LoopBound:
         return "LOOP"
     except Unsupported as exc:
